@@ -390,6 +390,10 @@ pub(crate) fn add_set_hash<W, R, T>(
             // note that since order is important to the default hasher, we'll just xor them together
             let mut ret = 0u64;
             for (hash, bucket) in set0.inner.iter() {
+                if bucket.is_empty() {
+                    // left behind by a removal: an equal set that never held the element has no such bucket
+                    continue;
+                }
                 let v = hash.wrapping_add(bucket.len() as u64);
                 ret ^= v;
             }
